@@ -30,10 +30,10 @@ Definition chk_gq_values (s : src) (o : option (list (list Z))) : bool :=
   | _, _ => false
   end.
 
-(** on ASCII text the proposed repair of the GraphQL lexer changes nothing *)
+(** on ASCII text the repair 9a1aff1 of the GraphQL lexer changed nothing: the old and the new program agree *)
 Definition chk_repair_agrees (s : src) : bool :=
   negb (forallb (fun c => width (cp c) =? 1) s) ||
-  match lex_graphql s, lex_graphql_repaired s with
+  match lex_graphql_pre s, lex_graphql s with
   | Done ts, Done ts' => list_eqb tok_eqb ts ts'
   | _, _ => false
   end.
@@ -43,13 +43,13 @@ Definition chk_ws (s : src) : bool := forallb (fun c => Bool.eqb (is_ws (cp c)) 
 
 (** finding class C12-K1: the GraphQL lexer slices [source] at a character count *)
 Definition k_graphql_peek_next (s : src) : bool :=
-  match lex_graphql s with Crash => true | _ => false end.
+  match lex_graphql_pre s with Crash => true | _ => false end.
 
 (** finding class C12-K7: the lexer itself gets through, [dedent_block_string] slices a line of a
     block string inside a multi-byte character *)
 Definition k_graphql_dedent (s : src) : bool :=
-  match lex_graphql s with
-  | Done ts => match block_values s ts with Crash => true | _ => false end
+  match lex_graphql_pre s with
+  | Done ts => match block_values_pre s ts with Crash => true | _ => false end
   | _ => false
   end.
 
@@ -71,16 +71,25 @@ Definition chk_eval (e : expr) (o : aobs) : bool := ares_eqb (eval e) o.
 (** against the pre-repair transcription (to confirm finding C12-F3 on old trees) *)
 Definition chk_arith_pre (m : mode) (op a b : Z) (o : aobs) : bool := ares_eqb (arith_pre m (op_of op) a b) o.
 
-(** SUM over Int64 values in arrival order: the implementation returns the total, or panics *)
-Definition chk_sum (m : mode) (vs : list Z) (o : aobs) : bool :=
-  match sum_int m 0 vs, o with
-  | Ok t, ObsVal (Some w) => t =? w
-  | Panic, ObsPanic => true
+(** SUM over Int64 values in arrival order: the implementation returns an integer total, a float (after an
+    overflow of a partial sum), or panics *)
+Inductive sobs := SumIsInt (v : Z) | SumIsFloat | SumPanics.
+Definition chk_sum (vs : list Z) (o : sobs) : bool :=
+  match sum_int 0 vs, o with
+  | Some t, SumIsInt w => t =? w
+  | None, SumIsFloat => true
+  | _, _ => false
+  end.
+(** against the pre-repair transcription (to confirm finding C12-K8 on old trees) *)
+Definition chk_sum_pre (m : mode) (vs : list Z) (o : sobs) : bool :=
+  match sum_int_pre m 0 vs, o with
+  | Ok t, SumIsInt w => t =? w
+  | Panic, SumPanics => true
   | _, _ => false
   end.
 (** finding class C12-K8: some partial sum, in arrival order, does not fit in an i64 *)
 Definition k_sum_overflow (vs : list Z) : bool :=
-  match sum_int Checked 0 vs with Panic => true | Ok _ => false end.
+  match sum_int_pre Checked 0 vs with Panic => true | Ok _ => false end.
 (** ... and for failures of the search, where the summed values are not known: the text contains
     the word [sum] (1) — coarse *)
 Definition k_sum_query (ks : list Z) : bool := existsb (Z.eqb 1) ks.
